@@ -8,7 +8,7 @@ From YG Require Import LRBase.
 Record entry := { e_st : nat; e_sym : nat; e_val : Z }.
 Definition semact := nat -> list Z -> Z.           (* rule -> values of $1..$k -> value of $$ *)
 Definition tok := (nat * Z)%type.                   (* translated symbol, value set by GetToken *)
-Inductive result := RAcc (v : Z) (reds : list nat) | RRej (pos : nat) | RCrash | RNil | RFuel.
+Inductive result := RAcc (v : Z) (reds : list nat) | RRej (pos : nat) (reds : list nat) | RCrash | RNil | RFuel.
 
 Section Drivers.
 Variables (tab : table) (g : grammar) (act : semact).
@@ -25,7 +25,7 @@ Fixpoint arun (fuel : nat) (stk : list entry) (inp : list tok) (pos : nat) (reds
     | [] => RNil
     | top :: _ =>
       match tab (e_st top) (la inp) with
-      | Error => RRej pos
+      | Error => RRej pos (rev reds)
       | Accept => RAcc (e_val top) (rev reds)
       | Shift q' => arun f ({| e_st := q'; e_sym := la inp; e_val := laval inp |} :: stk) (tl inp) (S pos) reds
       | Reduce r =>
@@ -64,7 +64,7 @@ Fixpoint crun (fuel : nat) (s : pst) (inp : list tok) (pos : nat) (reds : list n
     | None => RCrash
     | Some top =>
       match tab (e_st top) (la inp) with
-      | Error => RRej pos
+      | Error => RRej pos (rev reds)
       | Accept => RAcc (e_val top) (rev reds)
       | Shift q' => crun f (push s {| e_st := q'; e_sym := la inp; e_val := laval inp |}) (tl inp) (S pos) reds
       | Reduce r =>
